@@ -1331,12 +1331,13 @@ impl<'a, 'b, W: Write> Serializer for &'a mut YamlSerializer<'b, W> {
             }
             NAME_SPACE_AFTER => {
                 // Serialize the value, then emit an empty line after (only in block style).
-                let result = value.serialize(&mut *self);
+                // (Nothing more is written once the value has failed, e.g. on an I/O error.)
+                value.serialize(&mut *self)?;
                 if self.in_flow == 0 {
                     // Emit an extra blank line after the value
                     self.newline()?;
                 }
-                return result;
+                return Ok(());
             }
             _ => {}
         }
